@@ -101,8 +101,13 @@ Definition load_policy (f : fname) (m : mstate) (pd : pname * defid) : mstate :=
     else with_cache (set p [] (st_cache m)) m in
   with_map (set p f (st_map m1)) (with_store (set p d (st_store m1)) m1).
 
-(* body of the loop l.94-133 for one tracked file *)
-Definition load_file (fs : fs_view) (m : mstate) (f : fname) : mstate :=
+(* body of the loop l.94-133 for one tracked file.
+   purge = false: the code as released (l.131-133: only the names the file OWNS and no longer
+   defines are disassociated and restored).
+   purge = true: the code with fixes/C18-stale-cache.diff applied (the file's cache entries are
+   dropped for EVERY name it no longer defines, then the names it owned are restored).
+   gen/PolicyNames.v (monitor_purges_shadowed) says which of the two the source is. *)
+Definition load_file_gen (purge : bool) (fs : fs_view) (m : mstate) (f : fname) : mstate :=
   match get f fs, get f (st_ts m) with
   | Some (t, content), Some t0 =>
       if t >? t0 then
@@ -113,7 +118,12 @@ Definition load_file (fs : fs_view) (m : mstate) (f : fname) : mstate :=
         | Some new_p =>
             let m2 := fold_left (load_policy f) new_p m1 in
             let dropped := filter (fun p => negb (memZ p (keys new_p))) old_p in
-            fold_left (fun m p => restore_or_delete p (disassociate p f m)) dropped m2
+            if purge then
+              let stale := filter (fun p => negb (memZ p (keys new_p))) (keys (st_cache m2)) in
+              let m3 := fold_left (fun m p => disassociate p f m) stale m2 in
+              fold_left (fun m p => restore_or_delete p m) dropped m3
+            else
+              fold_left (fun m p => restore_or_delete p (disassociate p f m)) dropped m2
         end
       else m
   | None, Some _ => crash m          (* os.path.getmtime raises *)
@@ -121,14 +131,18 @@ Definition load_file (fs : fs_view) (m : mstate) (f : fname) : mstate :=
   end.
 
 (* scan_policies, l.78-133 *)
-Definition scan (fs : fs_view) (m : mstate) : mstate :=
+Definition scan_gen (purge : bool) (fs : fs_view) (m : mstate) : mstate :=
   let policy_files := keys fs in
   let added := filter (fun f => negb (memZ f (st_files m))) policy_files in
   let m1 := fold_left (fun m f => with_ts (set f 0 (st_ts m)) m) added m in
   let removed := filter (fun f => negb (memZ f policy_files)) (st_files m) in
   let m2 := fold_left (fun m f => remove_file f m) removed m1 in
   let m3 := with_files policy_files m2 in
-  fold_left (load_file fs) (sortZ (keys (st_ts m3))) m3.
+  fold_left (load_file_gen purge fs) (sortZ (keys (st_ts m3))) m3.
 
-Definition run (store0 : list (pname * defid)) (h : list fs_view) : mstate :=
-  fold_left (fun m fs => scan fs m) h (init store0).
+Definition run_gen (purge : bool) (store0 : list (pname * defid)) (h : list fs_view) : mstate :=
+  fold_left (fun m fs => scan_gen purge fs m) h (init store0).
+
+(* the released code *)
+Definition scan := scan_gen false.
+Definition run := run_gen false.
